@@ -396,6 +396,14 @@ def wl_positions(ctx, idx, rng):
         k2, exc = ctx.call(o, r.offset_at, t)
         if exc is None and k2 != k:
             ctx.violation(o, f"{fx.name}: offset_at(time_at({k})) = {k2}", None, {"what": "round_trip"})
+        sc = gen.pick(rng, ["tai", "tt"])
+        k2b, exc = ctx.call(o, r.offset_at, getattr(t, sc), where=f"offset_at(time in {sc})")
+        if exc is None and k2b != k:
+            ctx.violation(o, f"{fx.name}: offset_at(time_at({k}) expressed in {sc.upper()}) = {k2b}", None, {"what": "round_trip_scale"})
+        if 0 <= k < L:
+            inside_sc, exc = ctx.call(o, r.contains, getattr(t, sc), where=f"contains(time in {sc})")
+            if exc is None and not bool(inside_sc):
+                ctx.violation(o, f"{fx.name}: contains(time_at({k}) in {sc.upper()}) is False", None, {"what": "contains_scale"})
         unit = gen.pick(rng, [u.s, u.ms, u.us, u.min])
         q, exc = ctx.call(o, r.time_at, k, unit=unit)
         if exc is None:
